@@ -1,7 +1,8 @@
 (* Extraction of the C15 oracle-threaded models (ExtrOcamlBasic only; numbers stay Coq's positive/Z/nat datatypes). *)
 From Coq Require Extraction ExtrOcamlBasic.
-From Verif Require Import OomTxn.OracleModel.
+From Verif Require Import OomTxn.OracleModel OomTxn.JitJointModel.
+From Verif Require Jit.JitModel.
 Extraction Blacklist List String Int.
 Extraction "oomtxn.ml" OracleModel.vec_run OracleModel.vec_empty OracleModel.hash_run OracleModel.hash_empty OracleModel.hash_get
   OracleModel.hash_keys OracleModel.nbuckets OracleModel.pool_run OracleModel.pool_empty OracleModel.holder_run OracleModel.holder_empty
-  OracleModel.vsize OracleModel.vec_step OracleModel.hash_step OracleModel.pool_add OracleModel.holder_step OracleModel.all_ok OracleModel.holder2_step OracleModel.holder2_init OracleModel.holder2_run OracleModel.builder_step OracleModel.bld_init OracleModel.vm_step OracleModel.vms_init OracleModel.ra_step OracleModel.ras_init OracleModel.ra_rewrite.
+  OracleModel.vsize OracleModel.vec_step OracleModel.hash_step OracleModel.pool_add OracleModel.holder_step OracleModel.all_ok OracleModel.holder2_step OracleModel.holder2_init OracleModel.holder2_run OracleModel.builder_step OracleModel.bld_init OracleModel.vm_step OracleModel.vms_init OracleModel.ra_step OracleModel.ras_init OracleModel.ra_rewrite OracleModel.str_step OracleModel.str_empty OracleModel.ra_check JitJointModel.jit_alloc JitModel.release JitModel.init_state JitModel.fixed.
